@@ -348,6 +348,15 @@ class SNum:
     def __round__(s, n=None):
         raise Abort("unsupported", "round() of a symbolic number")
 
+    def __floor__(s):
+        return s if s.is_int else SNum(z3.simplify(z3.ToInt(s.e)))
+
+    def __ceil__(s):
+        return s if s.is_int else SNum(z3.simplify(-z3.ToInt(-s.e)))
+
+    def __trunc__(s):
+        return SNum(z3.simplify(trunc_term(s.e)))
+
     def __float__(s):
         raise TypeError("symbolic number has no float value (patch `float` in the module under test)")
 
